@@ -125,7 +125,7 @@ func c07Scheds(tier string) []c07Sched {
 }
 
 func c07SchedScenario(c c07Sched) *mc.Scenario {
-	return &mc.Scenario{Name: c.name(), Body: func(x *mc.X) {
+	return &mc.Scenario{Name: c.name(), TolerateNondet: c.engine != hx.Mem, Body: func(x *mc.X) {
 		so := &mc.SeqOut{}
 		cfg := cmpCfg{engine: c.engine, keys: []string{"/r/a", "/r/b"}}
 		w := newCmpWorld(cfg, "C07", so)
